@@ -481,6 +481,7 @@ def c13(out, tier, rng):
 
 import checks_text  # noqa: E402  (registers C06-C09)
 import checks_parse  # noqa: E402  (registers C10, C11)
+import checks_misc  # noqa: E402  (registers C14, C15, C16)
 
 
 # ---------------------------------------------------------------------------------------------- replay
